@@ -60,7 +60,7 @@ Fixpoint typed (s : schema) (d : datum) {struct d} : bool :=
   | SBytes, DBytes v => forallb (fun x => (0 <=? x) && (x <? 256)) v && (len v <? two63)
   | SString, DString v => forallb (fun x => (0 <=? x) && (x <? 256)) v && (len v <? two63)
   | SFixed n, DFixed v => forallb (fun x => (0 <=? x) && (x <? 256)) v && (len v =? n)
-  | SEnum k, DEnum i => (0 <=? i) && (i <? k)
+  | SEnum k, DEnum i => (0 <=? i) && (i <? k) && (i <? two63)
   | SRecord fields, DRecord ds =>
       (fix go (l : list (ident * schema)) (ds : list datum) {struct ds} : bool :=
          match l, ds with
@@ -78,7 +78,8 @@ Fixpoint typed (s : schema) (d : datum) {struct d} : bool :=
          | (k, d) :: r => forallb (fun x => (0 <=? x) && (x <? 256)) k && (len k <? two63) && typed vs d && go r
          end) kvs
   | SUnion branches, DUnion idx d =>
-      (0 <=? idx) && match nth_error branches (Z.to_nat idx) with Some x => typed x d | None => false end
+      (0 <=? idx) && (idx <? two63) &&
+      match nth_error branches (Z.to_nat idx) with Some x => typed x d | None => false end
   | _, _ => false
   end.
 
